@@ -104,6 +104,7 @@ Values(env, T0, d) ==
          \* identifier and open type value agree with one row of the object set
          LET rows == T.comps[2].t.comps
          IN UNION {{<<Pres(IdVal(rows[i])), Pres(MkAlt(rows[i].n, x))>> : x \in Take(Values(env, rows[i].t, 2), 5)} : i \in DOMAIN rows}
+            \cup (IF T.comps[2].o = "O" THEN {<<Pres(IdVal(rows[i])), <<>>>> : i \in DOMAIN rows} ELSE {})
     [] T.k \in {"SEQUENCE", "SET"} /\ ~IsIoSeq(T) ->
          IF d = 0 THEN {} ELSE
          LET cs == AllComps(T)
@@ -176,6 +177,7 @@ IocCorruptions(env, T0, v) ==
   LET T == Resolve(env, T0) IN
   CASE IsIoSeq(T) ->
          LET rows == IoRows(T) IN
+         IF ~IsPres(v[2]) THEN {} ELSE
          {<<"ioc-norow", <<Pres(u), v[2]>>>> : u \in UnknownIds(rows)}
          \cup {<<"ioc-mismatch", <<Pres(IdVal(rows[j])), v[2]>>>> : j \in {i \in DOMAIN rows : rows[i].n # AltOf(v[2][1])}}
     [] T.k \in {"SEQUENCE", "SET"} ->
